@@ -8,7 +8,7 @@ use serde_json::{json, Value};
 use std::collections::{BTreeMap, BTreeSet};
 use std::path::{Path, PathBuf};
 
-pub const DIRS: &[&str] = &["foo", "lib", "src", "baz", "d.x", "sp ace", "名", "Inc"];
+pub const DIRS: &[&str] = &["foo", "libs", "src", "baz", "d.x", "sp ace", "名", "Inc"];
 pub const FILES: &[&str] = &[
     "bar.c", "qux.cpp", "Main.rs", "a.c", "名.c", "top.c", "x y.c", "noext", ".hid.c", "B.h",
 ];
@@ -421,9 +421,9 @@ pub fn gen_key(rng: &mut Rng, t: &Tree, pd: Option<&str>, stats: &mut BTreeMap<S
 }
 
 pub const GLOBS: &[&str] = &[
-    "*", "**", "*.c", "**/*.c", "foo/*", "foo/**", "**/foo/**", "**/bar.c", "lib/?.c", "*/bar.c",
+    "*", "**", "*.c", "**/*.c", "foo/*", "foo/**", "**/foo/**", "**/bar.c", "libs/?.c", "*/bar.c",
     "**/baz/**", "foo/**/qux.cpp", "f?o/*", "src/*", "**/*.rs", "*.cpp", "", "/**", "**/src/**",
-    "foo/bar.c", "*y.c", "**/名.c", "名/**", "*名*", "sp ace/*", "**/.hid.c", "*/*/*", "?*", "lib/**/*",
+    "foo/bar.c", "*y.c", "**/名.c", "名/**", "*名*", "sp ace/*", "**/.hid.c", "*/*/*", "?*", "libs/**/*",
     "/*", "*/", "**/", "foo**", "**bar.c", "foo/***/bar.c", "a.c", "**/a.c", "Inc/**", "d.x/*", "*.h",
 ];
 
